@@ -49,6 +49,7 @@ SPEC = {
     'Step': (('E', 'E'), '(E1 if TIME > E2 else 0.0)'),
     'Time': ((), 'TIME'),
 }
+KNOWN = {}
 TIME_SHAPES = ['atom', '-', 'negnum']   # "t", "t-model.dt", "<t> - <duration>", str(model.starttime)
 
 
@@ -101,12 +102,40 @@ def cases(roles):
     return out
 
 
-def build(I, cls, kinds):
-    args = []
-    for i, k in enumerate(kinds, 1):
-        args.append(Sym(k, 'E%d' % i) if k in KINDS else k)
-    o = I.construct(cls, args)
-    return I.call_method(o, 'term', [Tmpl([TIME])])
+def build_all(I, cls, kinds):
+    """-> list of (decisions, template | ('raised', cls) | ('unbound', why)), one per resolution of the tests that the
+    operand kinds leave open (e.g. isinstance(operand, DivisionOperator) for an arbitrary operator)"""
+    out = []
+    todo = [[]]
+    seen = set()
+    while todo and len(out) < 64:
+        choices = todo.pop()
+        I.choices, I.taken = choices, []
+        args = []
+        for i, k in enumerate(kinds, 1):
+            args.append(Sym(k, 'E%d' % i) if k in KINDS else k)
+        try:
+            o = I.construct(cls, args)
+            res = I.call_method(o, 'term', [Tmpl([TIME])])
+        except Raised as e:
+            res = ('raised', e.cls)
+        except Unsupported as e:
+            res = ('unbound', str(e))
+        except RecursionError:
+            res = ('unbound', 'recursion')
+        taken = list(I.taken)
+        key = tuple(v for _, v in taken)
+        if key not in seen:
+            seen.add(key)
+            known = {a.name: getattr(a, 'known_cls', None) for a in args if isinstance(a, Sym)}
+            out.append((taken, res, known))
+        # schedule the alternatives of decisions taken by default
+        for j in range(len(choices), len(taken)):
+            alt = [v for _, v in taken[:j]] + [not taken[j][1]]
+            if tuple(alt) not in seen:
+                todo.append(alt)
+    I.choices, I.taken = [], []
+    return out
 
 
 def run(prop, cfg, tier, seed):
@@ -124,35 +153,34 @@ def run(prop, cfg, tier, seed):
             results[(cls, ())] = ('unbound', 'class not found')
             continue
         for kinds in cases(roles):
-            try:
-                results[(cls, kinds)] = build(I, cls, kinds)
-            except Raised as e:
-                results[(cls, kinds)] = ('raised', e.cls)
-            except Unsupported as e:
-                results[(cls, kinds)] = ('unbound', str(e))
-            except RecursionError:
-                results[(cls, kinds)] = ('unbound', 'recursion')
+            for n, (taken, res, known) in enumerate(build_all(I, cls, kinds)):
+                k2 = kinds if n == 0 else tuple(kinds) + ('path%d' % n,)
+                results[(cls, k2)] = res
+                KNOWN[(cls, k2)] = (known, taken)
     # shapes every operator class can return (fixed point; a template that is only a hole inherits the operand's shapes)
     op_shapes = set()
+    cls_shapes = {}
     for _ in range(4):
         new = set(op_shapes)
         for (cls, kinds), tm in results.items():
             if not isinstance(tm, Tmpl):
                 continue
             if len(tm.parts) == 1 and isinstance(tm.parts[0], Hole):
-                new.update(guarantee(tm.parts[0].kind, op_shapes))
+                shs = guarantee(tm.parts[0].kind, op_shapes)
             elif len(tm.parts) == 1 and isinstance(tm.parts[0], TimeVar):
-                new.update(TIME_SHAPES)
+                shs = TIME_SHAPES
             else:
                 sh = S.shape_of(render(tm))
-                if sh:
-                    new.add(sh)
+                shs = [sh] if sh else []
+            new.update(shs)
+            cls_shapes.setdefault(cls, set()).update(shs)
         if new == op_shapes:
             break
         op_shapes = new
     nfun = {}
     for (cls, kinds), tm in sorted(results.items(), key=lambda kv: (kv[0][0], kv[0][1])):
         roles, spec = SPEC[cls]
+        known, taken = KNOWN.get((cls, kinds), ({}, []))
         tag = '%s[%s]' % (cls, ','.join(kinds))
         base = '%s/operators.py::%s.term' % (prop, tag)
         nfun[cls] = nfun.get(cls, 0)
@@ -165,7 +193,7 @@ def run(prop, cfg, tier, seed):
                                      path=['raises %s' % tm[1]]))
             continue
         text = render(tm)
-        want = spec_text(spec, kinds)
+        want = spec_text(spec, [k for k in kinds if not str(k).startswith('path')])
         ts = _time.time()
         st, detail = S.equivalent(text, want)
         v = dict(name=base + '.denotes', qualname=cls, solver='cpython-ast + z3', secs=round(_time.time() - ts, 4),
@@ -187,6 +215,9 @@ def run(prop, cfg, tier, seed):
         holes = [(i, p) for i, p in enumerate(tm.parts) if isinstance(p, (Hole, TimeVar))]
         for hi, h in holes:
             shapes_h = TIME_SHAPES if isinstance(h, TimeVar) else guarantee(h.kind, op_shapes)
+            if isinstance(h, Hole) and known.get(h.name) and known[h.name] in cls_shapes:
+                # the path established the operand's class: its own contract applies
+                shapes_h = sorted(cls_shapes[known[h.name]])
             hname = 'TIME' if isinstance(h, TimeVar) else h.name
             for sh in shapes_h:
                 rep = S.REP[sh]
@@ -195,7 +226,7 @@ def run(prop, cfg, tier, seed):
                 ts = _time.time()
                 st, detail = S.equivalent(render(t1), render(t2))
                 v = dict(name='%s/hole%d(%s).unit[%s]' % (base, hi, hname, sh), qualname=cls, solver='cpython-ast + z3',
-                         secs=round(_time.time() - ts, 4))
+                         secs=round(_time.time() - ts, 4), path=['decisions: %r' % (taken,)] if taken else None)
                 if st in ('equal', 'syntax'):
                     v['status'] = 'discharged'
                 elif st == 'different':
